@@ -9,6 +9,10 @@ tie    : exact correspondence (rational canonical forms) of the Lean model *and*
          `make_event_matrix` of the working tree; translate/arith_C16.json regenerates the
          source's guards / comparisons / count arithmetic / denominators into
          Generated/ArithC16.lean, the gen_* theorems state the model in terms of them
+         round 4: the float64 strengths / ES matrices bit for bit (esf64, esmatf64: model sqrt53 +
+         rn53), thresholding also through NumPy's own quantile / median algorithm (mkevnp);
+         translate/gen_C16.py additionally regenerates the dtype / stores of the threshold array
+         and the 'linear' quantile expressions of the installed NumPy
 search : the published counting formulas as plain loops in `Fraction`, the
          range / exchange / shift / rescaling relations on the implementation,
          the N×N matrix against the static pairwise calls, thresholding against
@@ -322,7 +326,8 @@ def run(ctx):
                 "taumax in {inf,0,.5,...,5} or wide {2^-10,2^-4,64,2048}, lag in {0,+-.5,+-1,2,-1.5} or "
                 "wide {2^-10,-2^-4,100,-64,4096}; each request answered by the Lean model and by the Lean "
                 "published formula; matrix level: EventSeries objects N=1..6, T<=20 x all symmetrisations / "
-                "windows, default arguments, multi-step histories; thresholding: float64/float32/int data x "
+                "windows, default arguments, multi-step histories; thresholding: float64 (incl. values needing 30+ bits) / "
+                "float32 / int64..int8 / uint8 / uint16 data x "
                 "quantiles k/8, k/16 / values / types / defaults, scalar / array / list parameters, static "
                 "call and constructor (both axis orders); distinct = distinct canonical request; non-trivial "
                 "= both series have >= 3 events (ES) / >= 1 event (ECA) / data not constant (thresholding)")
@@ -330,9 +335,15 @@ def run(ctx):
         "event times / time stamps strictly increasing; event matrices binary",
         "correspondence inputs are dyadic rationals (decisions exact in float64 and, where used, float32); "
         "float results compared as canonical small rationals under tolerance 1e-9 (ES, squared) / 3e-7 "
-        "(ECA, float32)",
-        "the division by sqrt((lx-2)(ly-2)) is modelled over the reals only (theorems es_strength_range, "
-        "esSymmOp_value); the executable model returns the counts and the squared norm",
+        "(ECA, float32) and, in separate requests, bit for bit (esf64 / esmatf64 / ecaf32 / ecamatf32)",
+        "float64 strengths: np.sqrt and / are correctly rounded (IEEE 754); the model's sqrt53 (double nearest "
+        "to sqrt n, from the integer square root of n*4^54) and rn53 are compared bit for bit with the "
+        "implementation; the float-level [0,1] theorem (es_f64_range) needs (lx-2)(ly-2) <= 2^48; the "
+        "real-number theorems (es_strength_range, esSymmOp_value) remain",
+        "np.quantile / np.median are modelled from the installed NumPy's source (regenerated by "
+        "translate/gen_C16.py, theorem np_quantile_is_model); partition is modelled as a sort; NumPy's float "
+        "_lerp is exact on the dyadic generator data; integer data are compared with float64 thresholds after "
+        "conversion to float64 (exact below 2^53)",
         "event_series_analysis(method='ES', symmetrization='directed') returns the memoised matrix itself "
         "(the library's convention for cached results); histories in which the *caller* writes into a returned "
         "array are outside the statement, histories in which the *library* does are checked (theorem "
@@ -438,6 +449,10 @@ def run(ctx):
         # the index-wise published formula evaluated by the Lean side (theorem es_eq_formula)
         reqs.append("esformula" + req[2:])
         impl.append(got)
+        # round 4: the two doubles bit for bit (model: correctly rounded sqrt and division)
+        reqs.append("esf64" + req[2:])
+        impl.append("raise:" + type(r).__name__ if isinstance(r, Exception)
+                    else ",".join(exact_f64(v) for v in r))
         meta.append(("es", x, y, ts1, ts2, tm, lag))
         ctx.case(req, nx >= 3 and ny >= 3,
                  {"call": "event_synchronization", "x": x, "y": y, "ts1": ts1, "ts2": ts2,
@@ -725,6 +740,10 @@ def run(ctx):
             got = "raise" if isinstance(M, Exception) else enc_mat(M, lambda r: ",".join(canon_sq(v) for v in r))
             reqs.append(req)
             impl.append(got)
+            # round 4: the float64 matrix bit for bit (sum / difference / mean rounded once)
+            reqs.append("esmatf64" + req[5:])
+            impl.append("raise" if isinstance(M, Exception)
+                        else enc_mat(M, lambda r: ",".join(exact_f64(v) for v in r)))
             ctx.case(req, int(E.sum(axis=0).min()) >= 3)
             ctx.count(f"matrix:ES:{s}")
             rep = {"call": "event_series_analysis", "method": "ES", "symmetrization": s,
@@ -842,7 +861,17 @@ def run(ctx):
         if rng.random() < 0.15:
             data[:, rng.randrange(N)] = data[0, 0]        # a constant variable
         # caller data in both float widths, or as integers
-        ddt = rng.choice([float, float, np.float32] + ([] if half else [np.int64]))
+        ddt = rng.choice([float, float, np.float32] + ([] if half else
+                                                       [np.int64, np.int64, np.int32, np.int16, np.int8,
+                                                        np.uint8, np.uint16]))
+        if np.dtype(ddt).kind == "u":
+            data = data + span                             # unsigned observables: counts
+        if ddt is float and rng.random() < 0.2:
+            # values that need more than 24 significant bits (a float32 threshold array, or a
+            # float32 intermediate anywhere, would move thresholds across data values)
+            data = data + np.array([[rng.randrange(-3, 4) * 2.0 ** -30 for _ in range(N)]
+                                    for _ in range(T)])
+            ctx.count("threshold:data=fine(2^-30)")
         data = data.astype(ddt)
         if rng.random() < 0.2:
             data = np.asfortranarray(data)
@@ -861,7 +890,7 @@ def run(ctx):
                           if rng.random() < 0.93 else rng.choice([-0.25, 1.5, -2.0 ** -20, 1 + 2.0 ** -20]))
             else:
                 col = sorted(set(float(v) for v in data[:, i]))
-                vs.append(rng.choice(col) + rng.choice([0, 0, 0.25, -0.25])
+                vs.append(rng.choice(col) + rng.choice([0, 0, 0.25, -0.25, 0.5, -0.5, 0.75, -0.75])
                           if rng.random() < 0.9 else rng.choice([col[0] - 1, col[-1] + 1]))
         if not per_var:
             vs = [vs[0]] * N
@@ -907,6 +936,10 @@ def run(ctx):
             ",".join(t[0] if give_t else "none" for t in tys))
         got = "raise:" + type(r).__name__ if isinstance(r, Exception) else enc_mat(r.tolist())
         reqs.append(req)
+        impl.append(got)
+        # round 4: the same call answered through NumPy's own quantile algorithm (npQuantile /
+        # npMedian as regenerated from the installed NumPy) and the float64 threshold array
+        reqs.append("mkevnp" + req[4:])
         impl.append(got)
         nontriv = T >= 2 and all(len(set(data[:, i])) > 1 for i in range(N))
         ctx.case(req, nontriv, {"call": "make_event_matrix", "data": data.tolist(),
